@@ -177,8 +177,9 @@ Proof. intros HI. unfold root_matches_nodes. rewrite (inflight_filter_nil s HI).
 (* extraction of the membership predicates *)
 Lemma owned_extract s x : oa_release x = 0%N -> node_alloc_owned s x = true ->
   exists ap y, find_app s (oa_app x) = Some ap /\ find_alloc (ap_allocs ap) (oa_key x) = Some y.
-Proof. intros E. unfold node_alloc_owned. destruct (find_app s (oa_app x)) as [ap|]; [|discriminate].
-  destruct (find_alloc (ap_allocs ap) (oa_key x)) as [y|]; [eauto|]. intros H. rewrite (inflight_none s x E) in H. discriminate. Qed.
+Proof. intros E. unfold node_alloc_owned. destruct (find_app s (oa_app x)) as [ap|] eqn:Ea; [|discriminate].
+  destruct (find_alloc (ap_allocs ap) (oa_key x)) as [y|] eqn:Ey; [intros _; eauto|].
+  intros H. rewrite (inflight_none s x E) in H. discriminate. Qed.
 Lemma owned_intro s x ap y : find_app s (oa_app x) = Some ap -> find_alloc (ap_allocs ap) (oa_key x) = Some y ->
   node_alloc_owned s x = true.
 Proof. intros E1 E2. unfold node_alloc_owned. rewrite E1, E2. reflexivity. Qed.
